@@ -163,7 +163,8 @@ def summary_stage(out, tier, replay=None):
         data = l4.run(tier)
     base = data["base"]
     n = 0
-    for (idx, f, t), i in zip(data["jobs"], data["impl"]):
+    models = data.get("model") or [None] * len(data["jobs"])
+    for (idx, f, t), i, m in zip(data["jobs"], data["impl"], models):
         c = base["cases"][idx]
         b = base["impl"][idx]
         if "ok" not in i or "ok" not in b or c.get("country", "us") != "us":
@@ -174,6 +175,10 @@ def summary_stage(out, tier, replay=None):
         fr = []
         bad = None
         for x in b["ok"]["fractions"]:
+            if x["ev"] not in evs or (x["lot"] is not None and x["lot"] not in lots):
+                bad = bad or (f"fraction (event row {x['ev']}, lot row {x['lot']}) names a row that is no taxable transaction / acquisition "
+                              "of the input: its holding period cannot be that of two input timestamps")
+                break
             flag = 0 if x["lot"] is None else (1 if (evs[x["ev"]]["ts"][0] - lots[x["lot"]]["ts"][0]) // DAY >= 365 else 0)
             if flag != x["long"] and bad is None:
                 bad = f"fraction (event row {x['ev']}, lot row {x['lot']}) is flagged {x['long']}, the two instants give {flag}"
@@ -184,6 +189,13 @@ def summary_stage(out, tier, replay=None):
         if bad:
             out.violation(bad, rep, tags={"fraction-flag"})
             continue
+        if m is not None and c.get("via") == "ods":
+            # end-to-end stream: the flags of the run from real files vs the Coq parser + pipeline on the same cells
+            li = [(x["ev"], x["lot"], x["long"]) for x in i["ok"]["fractions"]]
+            lm = [(x["ev"], x["lot"], x["long"]) for x in m.get("fractions", [])]
+            if "err" in m or li != lm:
+                out.violation(f"model and implementation disagree on the long / short flags of an end-to-end run: {str(li)[:200]} / "
+                              f"{str(m.get('err', lm))[:200]}", rep, tags={"correspondence"}, found_input=False)
         if not dates_monotone(c):
             continue            # the to-date cut of such histories is finding F9 (reported by C06 / C10)
         want = {k: v[0] for k, v in oracle.yearly(c, fr, t, f).items()}
@@ -193,6 +205,7 @@ def summary_stage(out, tier, replay=None):
             out.violation(f"yearly summary under window ({f}, {t}): the LONG / SHORT lines do not split the fractions by their own holding "
                           f"periods: lines {diff[:3]} (expected crypto amounts {[want.get(k) for k in diff[:3]]}, reported {[got.get(k) for k in diff[:3]]})",
                           rep, tags={"summary-long-short-split"})
+    out.coverage["end_to_end_stream"] = hist.ods_stats(base["cases"])
     return n
 
 
